@@ -13,7 +13,7 @@ from common import ToolError, log
 REGISTRY = {}
 
 
-def run_tlc_chunks(module, invariants, chunks, label, out, max_parallel=4, workers=4, timeout=1800):
+def run_tlc_chunks(module, invariants, chunks, label, out, max_parallel=4, workers=4, timeout=1800, prints=None):
     """Validate every chunk (a self-contained trace) with TLC; returns [(chunk_index, violation)]."""
     viols = []
 
@@ -32,6 +32,8 @@ def run_tlc_chunks(module, invariants, chunks, label, out, max_parallel=4, worke
         if res.distinct != n_lines:
             raise ToolError("%s chunk %d: TLC visited %d states but the trace has %d events" % (
                 label, ci, res.distinct, n_lines))
+        if prints is not None:
+            prints.extend(res.prints)
         for v in res.violations:
             if v["l"] is None:
                 raise ToolError("could not locate violation of %s in TLC output" % v["name"])
@@ -319,7 +321,8 @@ import walks  # noqa: E402
 WALK_INVS = {
     "C09": ["P_C09_tour", "P_C09_sched", "P_C09_viol", "P_C09_trans", "P_C09_depot"],
     "C10": ["P_C10_tours", "P_C10_formations", "P_C10_limits", "P_C10_listings", "P_C10_cycles"],
-    "C13": ["P_C13_nopanic", "P_C13_input", "P_C13_refusal", "P_C13_enabled", "P_C13_effect", "P_C13_cycles"],
+    "C13": ["P_C13_nopanic", "P_C13_input", "P_C13_refusal", "P_C13_enabled", "P_C13_effect", "P_C13_cycles",
+            "P_C13_fit_exact", "P_C13_fit_refusal"],
 }
 PIPE_STAGE_INVS = {
     "C09": ["P_stage_caches_tour", "P_stage_caches_sched", "P_stage_caches_viol", "P_stage_caches_trans",
@@ -748,6 +751,13 @@ REGISTRY["C08"] = LsFixProp()
 class LsCandProp(PipeProp):
     """C11: all candidates of schedules reached by random walks through the neighbourhood."""
     INVS = ["P_C11_inv", "P_C11_caches", "P_C11_enum", "P_C11_project", "P_C06"]
+    # the neighbourhood as a function of the base schedule (Swaps.tla): every candidate is what its swap yields,
+    # and the set of candidates is exactly the set of applicable swaps
+    SWAP_INVS = ["P_C11_swapknown", "P_C11_swap", "P_C11_complete", "P_C11_sound", "Cov"]
+    SWAP_BRANCHES = ["PE:real->real:no_conflict", "PE:real->real:fit_all", "PE:real->real:fit_some",
+                     "PE:real->real:fit_nothing", "PE:real->real:provider_replaced_by_new_vehicle",
+                     "PE:dummy->real:no_conflict", "PE:dummy->real:provider_dummy_gone", "PE:real->dummy:no_conflict",
+                     "SM:no_conflict", "SM:conflict_gets_new_vehicle", "HH", "RN:trip", "RN:slot", "RN:vehicle_deleted"]
 
     def corpus(self, tier, seed, instances=None):
         n = 48 if tier == "quick" else 600
@@ -761,6 +771,20 @@ class LsCandProp(PipeProp):
 
     def collect_c(self, prop, info, out):
         viols = run_tlc_chunks("TracePipe", self.INVS, info["chunks"], "TracePipe/C11", out, max_parallel=8, workers=2)
+        prints = []
+        viols += run_tlc_chunks("TraceSwap", self.SWAP_INVS, info["chunks"], "TraceSwap/C11", out, max_parallel=8,
+                                workers=2, prints=prints)
+        branches = {}
+        sizes = []
+        for line in prints:
+            if '"COV"' in line:
+                b = line.split('"')[3]
+                branches[b] = branches.get(b, 0) + 1
+            elif '"NBH"' in line:
+                sizes.append(int(line.rstrip(">").split(",")[-1]))
+        out.coverage["swap_branches"] = branches
+        out.coverage["neighbourhoods_compared"] = len(sizes)
+        out.coverage["largest_neighbourhood"] = max(sizes) if sizes else 0
         by_chunk = {}
         for m in info["instances"]:
             by_chunk.setdefault(m["chunk"], []).append(m)
@@ -799,6 +823,7 @@ class LsCandProp(PipeProp):
                              "candidates_enumerated": nenum, "candidates_by_swap": kinds, "formulas": self.INVS})
         need = ["SpawnVehicleForMaintenance", "PathExchange", "AddTripForHitchHiking", "RemoveSingleNode"]
         missing = [k for k in need if not kinds.get(k)]
+        missing += [b for b in self.SWAP_BRANCHES if not out.coverage.get("swap_branches", {}).get(b)]
         if missing or ncand < 500:
             raise ToolError("vacuous C11 corpus: %d candidates, missing swap kinds %s" % (ncand, missing))
         out.samples.append({"instance": info["instances"][0]["name"], "candidates": info["instances"][0]["ncand"]})
@@ -808,6 +833,10 @@ class LsCandProp(PipeProp):
             "neighbourhood = RSSchedParallelNeighborhood with the limits used by build_local_search_solver (3:00:00, 0:10:00)",
         ]
         return out
+
+    def selftest(self, prop, tier, seed):
+        import selftest
+        return selftest.lscand(prop, tier, seed)
 
     def replay(self, prop, path):
         with open(path) as f:
